@@ -157,10 +157,15 @@ func (xc *XMCache) Select(bucket string, startKey []byte, endKey []byte) (contra
 
 // newXModelCacheIterator new an instance of XModel Cache iterator
 func (mc *XMCache) newXModelCacheIterator(bucket string, startKey []byte, endKey []byte) (contract.Iterator, error) {
-	iter, _ := mc.outputsCache.Select(bucket, startKey, endKey)
-	outputIter := iter
+	outputIter, err := mc.outputsCache.Select(bucket, startKey, endKey)
+	if err != nil {
+		return nil, err
+	}
 
-	iter, _ = mc.inputsCache.Select(bucket, startKey, endKey)
+	iter, err := mc.inputsCache.Select(bucket, startKey, endKey)
+	if err != nil {
+		return nil, err
+	}
 	inputIter := newStripDelIterator(iter, true)
 
 	backendIter, err := mc.model.Select(bucket, startKey, endKey)
